@@ -28,6 +28,19 @@ __all__ = (
 )
 
 
+# region verification hooks: inactive unless the environment variable PYBC_VERIF=1 is set AND a sink is installed
+_verif_sink = None
+
+
+def _verif_install(sink):
+    """Install (or with None remove) the verification trace sink; refused unless PYBC_VERIF=1."""
+    global _verif_sink  # pylint: disable=global-statement
+    import os
+    _verif_sink = sink if (sink is not None and os.environ.get("PYBC_VERIF") == "1") else None
+    return _verif_sink is not None
+# endregion
+
+
 class CurvePoint(NamedTuple):
     """Coefficients for quadratic interpolation"""
     a: float
@@ -306,12 +319,18 @@ class TrajectoryCalc:
 
         iterations_count = 0
         zero_finding_error = _cZeroFindingAccuracy * 2
+        if _verif_sink is not None:
+            _verif_sink("zbegin", self, {"shot": shot_info, "distance_feet": distance_feet, "zero_distance": zero_distance,
+                                         "height_at_zero": height_at_zero, "elevation": self.barrel_elevation})
         # x = horizontal distance down range, y = drop, z = windage
         while zero_finding_error > _cZeroFindingAccuracy and iterations_count < _cMaxIterations:
             # Check height of trajectory at the zero distance (using current self.barrel_elevation)
             t = self._integrate(shot_info, zero_distance, zero_distance, TrajFlag.NONE)[0]
             height = t.height >> Distance.Foot
             zero_finding_error = math.fabs(height - height_at_zero)
+            if _verif_sink is not None:
+                _verif_sink("ziter", self, {"i": iterations_count, "elevation": self.barrel_elevation, "row": t,
+                                            "height": height, "error": zero_finding_error})
             if zero_finding_error > _cZeroFindingAccuracy:
                 # Adjust barrel elevation to close height at zero distance
                 self.barrel_elevation -= (height - height_at_zero) / zero_distance
@@ -319,6 +338,10 @@ class TrajectoryCalc:
                 break
             iterations_count += 1
 
+        if _verif_sink is not None:
+            _verif_sink("zend", self, {"iterations": iterations_count, "error": zero_finding_error,
+                                       "elevation": self.barrel_elevation,
+                                       "raises": zero_finding_error > _cZeroFindingAccuracy})
         if zero_finding_error > _cZeroFindingAccuracy:
             # ZeroFindingError contains an instance of last barrel elevation; so caller can check how close zero is
             raise ZeroFindingError(zero_finding_error, iterations_count, Angular.Radian(self.barrel_elevation))
@@ -374,9 +397,16 @@ class TrajectoryCalc:
         # region Trajectory Loop
         warnings.simplefilter("once")  # used to avoid multiple warnings in a loop
         it = 0  # iteration counter
+        if _verif_sink is not None:
+            _verif_sink("begin", self, {"shot": shot_info, "maximum_range": maximum_range, "record_step": record_step,
+                                        "filter_flags": filter_flags, "time_step": time_step, "min_step": min_step,
+                                        "range_vector": range_vector, "velocity_vector": velocity_vector,
+                                        "data_filter": data_filter, "wind_sock": wind_sock})
         while range_vector.x <= maximum_range + min_step:
             it += 1
             data_filter.clear_current_flag()
+            if _verif_sink is not None:
+                _verif_pre = (range_vector, velocity_vector, time, len(ranges))
 
             # Update wind reading at current point in trajectory
             if range_vector.x >= wind_sock.next_range:  # require check before call to improve performance
@@ -413,6 +443,14 @@ class TrajectoryCalc:
             range_vector += delta_range_vector  # type: ignore
             velocity = velocity_vector.magnitude()  # Velocity relative to ground
             time += delta_time
+            if _verif_sink is not None:
+                _verif_sink("iter", self, {"i": it, "pre_r": _verif_pre[0], "pre_v": _verif_pre[1], "pre_t": _verif_pre[2],
+                                           "wind": wind_vector, "mach": mach, "density_factor": density_factor,
+                                           "dt": delta_time, "drag": drag, "post_r": range_vector,
+                                           "post_v": velocity_vector, "post_t": time, "rows": ranges[_verif_pre[3]:],
+                                           "flag": data_filter.current_flag, "seen_zero": data_filter.seen_zero,
+                                           "next_record_distance": data_filter.next_record_distance,
+                                           "sock_current": wind_sock.current})
 
             if (
                     velocity < _cMinimumVelocity
@@ -430,6 +468,8 @@ class TrajectoryCalc:
                     reason = RangeError.MaximumDropReached
                 else:
                     reason = RangeError.MinimumAltitudeReached
+                if _verif_sink is not None:
+                    _verif_sink("raise", self, {"reason": reason, "row": ranges[-1], "n_rows": len(ranges)})
                 raise RangeError(reason, ranges)
                 # break
             # endregion
@@ -441,6 +481,8 @@ class TrajectoryCalc:
                 velocity, mach, self.spin_drift(time), self.look_angle,
                 density_factor, drag, self.weight, TrajFlag.NONE))
         logger.debug(f"euler py it {it}")
+        if _verif_sink is not None:
+            _verif_sink("end", self, {"iterations": it, "rows": ranges, "post_r": range_vector, "post_t": time})
         return ranges
 
     def drag_by_mach(self, mach: float) -> float:
